@@ -30,8 +30,8 @@ type c09Replay struct {
 	Route         string   `json:"route"` // output-dry | mkdir-md-dry | mkdir-root-dry
 	Extra         string   `json:"extra_options,omitempty"`
 	Gaps          bool     `json:"blank_lines_between_all_lines,omitempty"` // the Markdown routes get the document with a blank line after every line
-	AfterFault    bool     `json:"after_a_failed_write,omitempty"` // the same call was made just before with a writer that took half of the report
-	Color         bool     `json:"color,omitempty"`                // colours switched on (a terminal): the report is judged with the SGR sequences removed
+	AfterFault    bool     `json:"after_a_failed_write,omitempty"`          // the same call was made just before with a writer that took half of the report
+	Color         bool     `json:"color,omitempty"`                         // colours switched on (a terminal): the report is judged with the SGR sequences removed
 }
 
 var sgr = regexp.MustCompile("\x1b\\[[0-9;]*m")
@@ -151,11 +151,16 @@ func c09Case(c *rep.Ctx, r c09Replay) {
 		// the real run gets the same kind of target the dry run was given: a directory that does not exist yet
 		realTarget = filepath.Join(j2.Target, "not", "yet", "there")
 	}
-	rpan := sut.Guard(func() {
+	// (a dry run with the massive option predicts the real run with the massive option)
+	var realExtra []gtree.Option
+	if strings.Contains(r.Extra, "massive") {
+		realExtra = extraOpts("massive", "")
+	}
+	rpan := guardMaybeMassive(realExtra != nil, func() {
 		if strings.HasPrefix(r.Route, "mkdir-root-dry") {
-			rerr = gtree.MkdirFromRoot(sut.BuildRoot(f[0]), gtree.WithFileExtensions(r.Exts), gtree.WithTargetDir(realTarget))
+			rerr = gtree.MkdirFromRoot(sut.BuildRoot(f[0]), append([]gtree.Option{gtree.WithFileExtensions(r.Exts), gtree.WithTargetDir(realTarget)}, realExtra...)...)
 		} else {
-			rerr = gtree.MkdirFromMarkdown(strings.NewReader(doc), gtree.WithFileExtensions(r.Exts), gtree.WithTargetDir(realTarget))
+			rerr = gtree.MkdirFromMarkdown(strings.NewReader(doc), append([]gtree.Option{gtree.WithFileExtensions(r.Exts), gtree.WithTargetDir(realTarget)}, realExtra...)...)
 		}
 	})
 	if rpan != "" {
@@ -296,6 +301,85 @@ func init() {
 			run(dw, nw, [][]string{{".go"}})
 			run(dc, nc, [][]string{nil})
 			run(dr, nr, [][]string{{".go"}})
+		}
+		// extension lists with entries a command line easily produces (a blank before or after an entry, an empty entry,
+		// an entry without the dot, the same entry in two spellings): an entry is a suffix, taken literally, by the dry
+		// run exactly as by the real run; single roots, simple and with the massive option
+		padded := [][]string{{" .md"}, {".go", " .md"}, {".md "}, {"\t.go"}, {""}, {".go", ""}, {"md"}, {".MD"}, {".md", ".MD"}, {". md"}}
+		for n := 1; n <= 3 && !c.Expired(); n++ {
+			enum.DepthSeqs(n, func(d []int) {
+				if n > 1 && d[len(d)-1] == 1 {
+					return
+				}
+				for _, x := range d[1:] {
+					if x == 1 {
+						return
+					}
+				}
+				enum.Tuples(n, 4, func(t []int) {
+					if !c.Take() || c.Expired() {
+						return
+					}
+					names := enum.Pick([]string{"a", "README.md", "b.go", "x.MD"}, t)
+					c.StateN(1)
+					c.Nontrivial()
+					c.Inc("padded_extension_cases")
+					for _, ex := range padded {
+						for _, rt := range routes {
+							for _, extra := range []string{"", "massive", "massive-nil"} {
+								c09Case(c, c09Replay{Kind: "c09", Depth: append([]int{}, d...), Names: names, Exts: ex, Route: rt, Extra: extra})
+							}
+						}
+					}
+				})
+			})
+		}
+		// the size sweep (enum/size.go): every width and depth up to the bound, children of the wide parent carry an extension
+		{
+			upTo, far, deepTo, deepFar := 140, 1030, 130, 260 // (file-system work per case)
+			if c.Thorough() {
+				upTo, far, deepTo, deepFar = 1100, 2100, 300, 520
+			}
+			c.Bound("size_sweep_width_every_integer_up_to", fmt.Sprint(upTo))
+			c.Bound("size_sweep_depth_every_integer_up_to", fmt.Sprint(deepTo))
+			c.Bound("size_sweep_depth_power_of_two_neighbours_up_to", fmt.Sprint(deepFar))
+			sweep := func(s enum.SizeShape) {
+				if !c.Take() || c.Expired() {
+					return
+				}
+				f := enum.Build(s.D, s.Names)
+				if !distinctRoots(f) {
+					return
+				}
+				for _, nm := range s.Names {
+					if strings.ContainsAny(nm, "/") {
+						return
+					}
+				}
+				withExt := make([]string, len(s.Names))
+				for i, nm := range s.Names {
+					withExt[i] = nm
+					if strings.HasPrefix(nm, "c0") || strings.HasPrefix(nm, "c1") || nm == "bk" || strings.HasPrefix(nm, "t") {
+						withExt[i] = nm + ".go"
+					}
+				}
+				c.StateN(1)
+				c.Nontrivial()
+				c.Inc("size_sweep_cases")
+				rts := routes
+				if len(f) != 1 {
+					rts = routes[:2]
+				}
+				extra := ""
+				if len(f) == 1 && s.Size%3 == 1 {
+					extra = "massive"
+				}
+				c09Case(c, c09Replay{Kind: "c09", Depth: s.D, Names: withExt, Exts: []string{".go"}, Route: rts[s.Size%len(rts)], Extra: extra})
+				c09Case(c, c09Replay{Kind: "c09", Depth: s.D, Names: s.Names, Exts: nil, Route: rts[(s.Size+1)%len(rts)]})
+			}
+			enum.DeepShapes(enum.Sizes(deepTo, deepFar), sweep)
+			enum.WideShapes(enum.Sizes(upTo, far), sweep)
+			enum.TwinShapes(sweep)
 		}
 		// names with format verbs and other printable oddities (the report is assembled with fmt)
 		verbs := []string{"x", "100%d", "a%%b", "%s", "%!v", "{}"}
